@@ -10,7 +10,7 @@ EVIDENCE = dict(
          "AllOrNothing (contents change only by a commit installing the working copy) and OwnedWhenIdle. Real Pattern "
          "objects (shapes up to 3x3 exhaustively for failure positions, random beyond; attached and unattached) are "
          "edited through set_via_fn and set_via_gen with a failure injected at every cell position / every yield index, "
-         "partial and repeated yields, sequences of 1-4 successive edits, and a first edit on a newly constructed pattern nothing has looked at yet; the supplied callable logs the contents it "
+         "partial and repeated yields, generators that edit the working array's own notes, sequences of 1-4 successive edits, and a first edit on a newly constructed pattern nothing has looked at yet; the supplied callable logs the contents it "
          "observes at each invocation; Trace_RVBulk validates one event per model action. non-trivial = the edit "
          "supplies a note different from the cell's previous content or fails.",
     explanation="fault_sequences: a failure at each cell/yield index; histories: successive edits on the same pattern")
@@ -60,6 +60,7 @@ def run_history(api, rnd, tid, lines, tracks, attached, edits, prefill, fresh=Fa
         fail_at = ed["fail_at"]
         exc = ed.get("exc", Boom)
         reuse = ed.get("reuse", ())          # positions (indices into calls) where the callable hands back an EXISTING note object
+        inplace = ed.get("inplace", ())      # positions where the generator edits the note found in the WORKING array and yields it
 
         def mk(c):
             return api.Note(note=c[0], vel=c[1], module=c[2], ctl=c[3], val=c[4])
@@ -88,6 +89,12 @@ def run_history(api, rnd, tid, lines, tracks, attached, edits, prefill, fresh=Fa
                             src = p.data[0][0]
                             ev.append(dict({"op": "cell", "k": k, "note": cell_of(src)}, **seen(p)))
                             yield (k - 1) // tracks, (k - 1) % tracks, src
+                            continue
+                        if i in inplace:     # "possible, but discouraged": change the working array's own note object
+                            n_ = new[(k - 1) // tracks][(k - 1) % tracks]
+                            n_.note, n_.vel, n_.module, n_.ctl, n_.val = api.NOTECMD(c[0]), c[1], c[2], c[3], c[4]
+                            ev.append(dict({"op": "cell", "k": k, "note": c}, **seen(p)))
+                            yield (k - 1) // tracks, (k - 1) % tracks, n_
                             continue
                         ev.append(dict({"op": "cell", "k": k, "note": c}, **seen(p)))
                         yield (k - 1) // tracks, (k - 1) % tracks, mk(c)
@@ -154,6 +161,8 @@ def run(ctx):
         d = {"setter": setter, "notes": notes, "fail_at": fail_at, "exc": rnd.choice(EXC_KINDS)}
         if rnd.random() < 0.35:
             d["reuse"] = set(rnd.sample(range(len(notes)), rnd.randrange(0, len(notes) + 1))) if notes else set()
+        elif setter == "gen" and rnd.random() < 0.5:
+            d["inplace"] = set(rnd.sample(range(len(notes)), rnd.randrange(0, len(notes) + 1))) if notes else set()
         return d
     traces = []
     shapes = [(1, 1), (1, 2), (2, 1), (2, 2), (3, 2), (2, 3), (3, 3)]
